@@ -8,7 +8,9 @@ mkdir -p bin evidence replays
 # warm the cache: instrument the current tree and compile the harness once
 S=$(mktemp -d)
 trap 'rm -rf "$S"' EXIT
-./bin/instrument -repo /repo -out "$S" >/dev/null
+cp /repo/go.sum harness/go.sum
+D=$(cd harness && go1.26.8 list -m -f '{{.Dir}}' github.com/zishang520/engine.io-go-parser)
+./bin/instrument -repo /repo -out "$S" -tick "$D/parser,$D/utils" >/dev/null
 cp /repo/go.sum harness/go.sum
 (cd harness && go1.26.8 test -c -tags verif -overlay "$S/overlay.json" -vet=off -o "$S/harness.test" .)
 echo "setup ok"
